@@ -16,6 +16,9 @@ MIN_FUNCTIONS = 1
 
 ASSUMPTIONS = dict(common.OPAQUE_ASSUMPTIONS)
 ASSUMPTIONS.update(common.ENV_OPAQUE_ASSUMPTIONS)
+ASSUMPTIONS.update(common.ENV_STRUCT_ASSUMPTIONS)
+ASSUMPTIONS.update(common.AST_OPAQUE_ASSUMPTIONS)
+ASSUMPTIONS.update({"IoError": "opaque stand-in for std::io::Error"})
 ASSUMPTIONS.update({
     "Value": "opaque stand-in for values::Value (not inspected by pop_to_toplevel)",
     "default": "BlockBindings::default() is an empty block",
@@ -23,11 +26,27 @@ ASSUMPTIONS.update({
 })
 LEMMAS = {}
 UNVERIFIED = {"C10": [
-    "Command::Abort arm in commands.rs (two statements: calls pop_to_toplevel, returns EvalAction::Abort) and the session loops that act on EvalAction::Abort",
+    "the session loops that act on EvalAction::Abort (json_session.rs / cli_session.rs answer \"Aborted\" and read the next request)",
     "that a new evaluation on a stack satisfying the postcondition behaves as in a fresh session (needs the evaluator as a spec)"]}
 
 GLUE = """
 #[verifier::external_body] pub struct Value { _o: u8 }
+#[verifier::external_body] pub struct IoError { _o: u8 }
+// only the tag of commands::Command that selects the extracted arm
+pub enum Command { Abort, Other }
+"""
+
+CLEAN = """
+/// what "a clean top level" means for the evaluator stack after :abort (C10), relative to the stack before
+pub open spec fn aborted(before: Seq<StackFrame>, after: Seq<StackFrame>) -> bool {
+    (before.len() == 0 ==> after.len() == 0)
+    && (before.len() > 0 ==> after.len() == 1
+        && after[0].exprs_to_eval@.len() == 0
+        && after[0].bindings_next_block@.len() == 0
+        && after[0].evalled_values@ =~= prefix1(before[0].evalled_values@)
+        && after[0].bindings.block_bindings@ =~= prefix1(before[0].bindings.block_bindings@)
+        && after[0].namespace == before[0].namespace && after[0].enclosing_name == before[0].enclosing_name && after[0].type_bindings == before[0].type_bindings)
+}
 """
 
 DEFAULT_GLUE = """
@@ -38,6 +57,10 @@ impl BlockBindings {
 """
 
 WITNESSES = [
+    {"match": r"abort_arm\.", "kind": "json-session", "props": ["C10"],
+     "input": ["let x = 1", "if x == 1 { for i in [1, 2, 3] { let x = i * 100 if i == 2 { throw(\"boom\") } } }", "x", ":abort", "x", "i"],
+     "expect": {"py": "(lambda tail: ('200' in tail or '\"Ok\": \"2\"' in tail) and 'locals of the aborted evaluation are still visible after :abort: ' + tail[-300:] or '')(out.split('run_command')[-1])"},
+     "note": ":abort after inspecting a variable while stopped in a toplevel block must still unwind the block"},
     {"match": r"pop_to_toplevel\.", "kind": "json-session", "props": ["C10"],
      "input": ["let kept = 10", "fun boom(x) { throw(\"stop\") }",
                "if kept > 0 { let kept = 999  let outer_secret = 111  for i in [1, 2, 3] { if i == 2 { boom(i) } } }",
@@ -57,8 +80,11 @@ def build(tier):
     u.raw(common.prelude("strings.rs"), kind="prelude")
     u.raw(common.OPAQUE, kind="prelude")
     u.raw(GLUE, kind="prelude")
-    common.add_env_types(u)
+    common.add_env_full(u)
+    u.add_type("src/commands.rs", "EvalAction", subst=[(r"ast::Expression", "Expression")])
+    u.add_type("src/commands.rs", "CommandError", subst=[(r"std::io::Error", "IoError")])
     u.raw("pub open spec fn prefix1<T>(s: Seq<T>) -> Seq<T> { if s.len() >= 1 { s.take(1) } else { s } }", kind="spec")
+    u.raw(CLEAN, kind="spec")
     # helpers a rewritten pop_to_toplevel may go through
     u.add_fn("src/eval.rs", "push_block", impl="Bindings", contract=Contract(
         ensures=[("one_more", "final(self).block_bindings@.len() == old(self).block_bindings@.len() + 1")], props={"C10"}))
@@ -78,6 +104,15 @@ def build(tier):
             ("toplevel_frame_kept", "old(self).0@.len() > 0 ==> final(self).0@[0].namespace == old(self).0@[0].namespace && final(self).0@[0].enclosing_name == old(self).0@[0].enclosing_name && final(self).0@[0].type_bindings == old(self).0@[0].type_bindings"),
         ],
         props={"C10"}))
+    # the `:abort` command itself: the Command::Abort arm of run_command (commands.rs), in ANY session state
+    u.add_block_fn("src/commands.rs", "run_command", "Command::Abort => {",
+                   sig="pub fn abort_arm(env: &mut Env) -> Result<(), CommandError>", name="abort_arm",
+                   prefix="match Command::Abort {\n", suffix="\n        _ => {}\n    }\n    Ok(())",
+                   contract=Contract(
+                       ensures=[("abort_always_cleans_the_stack", "aborted(old(env).stack.0@, final(env).stack.0@)"),
+                                ("reports_abort", "r matches Err(CommandError::Action(EvalAction::Abort))"),
+                                ("rest_of_env_untouched", "*final(env) == (Env { stack: final(env).stack, ..*old(env) })")],
+                       props={"C10"}))
     u.add_canary_proof()
     u.raw(common.FOOTER)
     return u
